@@ -414,7 +414,8 @@ func c06(c *ctx) {
 	e := &c06env{c: c, keys: newServerKeys(r)}
 	e.cur = time.Unix(1_760_000_000, 0).Add(time.Duration(r.intn(1_000_000_000)))
 	byp := r.bytes(16)
-	e.sta = newState(e.keys, stateOpts{bypass: [][]byte{byp}, now: func() time.Time { return e.cur }})
+	adminUID := append([]byte("ADMIN-"), r.bytes(10)...)
+	e.sta = newState(e.keys, stateOpts{adminUID: adminUID, bypass: [][]byte{byp}, now: func() time.Time { return e.cur }})
 	e.dialer = &fakeDialer{}
 	e.sta.RedirDialer = e.dialer
 	e.tlsCfg = &tls.Config{Certificates: []tls.Certificate{selfSigned()}, SessionTicketsDisabled: true}
@@ -489,6 +490,21 @@ func c06(c *ctx) {
 		f := flavours[i%len(flavours)]
 		e.run(c06case{transport: f.tr, br: f.br, enc: byte(i % 4), sid: uint32(1000 + i), unordered: i%2 == 0, off: offs[i%len(offs)],
 			domain: domains[i%len(domains)], method: []string{"shadowsocks", "openvpn", "MixedCaseSS"}[i%3], uid: byp, viaDisp: true}, idx)
+		idx++
+	}
+	// further connections of a session that exists (NumConn > 1, a re-dial): they join it and must be given ITS key
+	for i := 0; i < nd/4; i++ {
+		f := flavours[(i+1)%len(flavours)]
+		sid := uint32(1000 + 4*i)
+		e.run(c06case{transport: f.tr, br: f.br, enc: byte((4 * i) % 4), sid: sid, unordered: (4*i)%2 == 0, off: offs[i%len(offs)],
+			domain: domains[i%len(domains)], method: []string{"shadowsocks", "openvpn", "MixedCaseSS"}[(4*i)%3], uid: byp, viaDisp: true}, idx)
+		idx++
+	}
+	// the AdminUID used as an ordinary client (session id other than 0): "unlimited QoS credits", no database record
+	for i := 0; i < 6; i++ {
+		f := flavours[i%len(flavours)]
+		e.run(c06case{transport: f.tr, br: f.br, enc: byte(i % 4), sid: []uint32{7, 0xC06C0002, 0xFFFFFFFF, 8, 0xC06C0003, 0xFFFFFFFE}[i], unordered: i%2 == 1, off: offs[i%len(offs)],
+			domain: domains[i%len(domains)], method: "shadowsocks", uid: adminUID, viaDisp: true}, idx)
 		idx++
 	}
 	// composeReply, byte for byte, and the client's offsets on it
